@@ -79,7 +79,7 @@ def doc : Doc :=
       .plain (.loop [a!"_a", a!"_t"] [[
         .lst [.enc (a!"abcd") (a!"> \\\\\n> ab\\\n> cd")],
         .tbl [(a!"k", .tsquote, .lst [.str (a!"t") .text]), (a!"p", .dquote, .str [120, 0xD83D, 0xDE00] .squote)]]]),
-      .frame (a!"f") [.item (a!"_x") (.str (a!";semi") .bare)],
+      .frame (a!"f") [.plain (.item (a!"_x") (.str (a!";semi") .bare))],
       .plain (.item (a!"_q") .unk)] },
    { code := a!"c[1]", body := [.plain (.item (a!"_y") (.str (a!"it's") .dquote))] }]
 
@@ -106,6 +106,54 @@ theorem C01_render_instance (pol : Policy) :
       = { rc := 0, log := [], cif := denote .cif2 id C01render.doc } :=
   C01_parse_render C01parse.opts2 C01render.doc C01render.layout pol rfl (by decide) rfl C01_render_instance_hyps.1
     C01_render_instance_hyps.2.1 C01_render_instance_hyps.2.2.1 C01_render_instance_hyps.2.2.2
+
+/-! ### nested save frames -/
+
+namespace C01render
+/-- a block with a save frame that holds an item, a save frame (which holds a loop and a third-level save frame) and another
+    item; then an item of the block -/
+def nested : Doc :=
+  [{ code := a!"b", body := [
+      .frame (a!"f") [
+        .plain (.item (a!"_x") (.str (a!"1") .bare)),
+        .frame (a!"g") [
+          .plain (.loop [a!"_a"] [[.str (a!"u v") .squote], [.unk]]),
+          .frame (a!"h") [.plain (.item (a!"_x") (.str (a!"3") .bare))]],
+        .plain (.item (a!"_y") (.lst [.na]))],
+      .plain (.item (a!"_x") (.str (a!"0") .bare))] }]
+
+/-- the parser options with save frames nested to any depth (`max_frame_depth` negative) -/
+def optsDeep : Opts := { C01parse.opts2 with maxFrameDepth := -1 }
+end C01render
+
+set_option maxRecDepth 100000 in
+theorem C01_render_nested_hyps :
+    C01_wfDoc C01render.optsDeep C01render.nested = true ∧ C01_feedOk .cif2 C01render.nested (fun _ => [.eol]) = true
+    ∧ linesFit 0 (render C01render.nested (fun _ => [.eol])) = true ∧ render C01render.nested (fun _ => [.eol]) ≠ []
+    -- with one level of save frames only (`max_frame_depth` = 1) the document is NOT well-formed for the parser
+    ∧ C01_wfDoc C01parse.opts2 C01render.nested = false := by
+  refine ⟨by decide +kernel, by decide +kernel, by decide +kernel, ?_, by decide +kernel⟩
+  intro h
+  have : (render C01render.nested (fun _ => [.eol])).length = 0 := by rw [h]; rfl
+  revert this
+  decide +kernel
+
+/-- … so, under every callback policy, the text with three levels of save frames parses, without a report, to the nested content -/
+theorem C01_render_nested_instance (pol : Policy) :
+    parse C01render.optsDeep pol [] (render C01render.nested (fun _ => [.eol]))
+      = { rc := 0, log := [], cif := denote .cif2 id C01render.nested } :=
+  C01_parse_render C01render.optsDeep C01render.nested (fun _ => [.eol]) pol rfl (by decide) rfl C01_render_nested_hyps.1
+    C01_render_nested_hyps.2.1 C01_render_nested_hyps.2.2.1 C01_render_nested_hyps.2.2.2.1
+
+set_option maxRecDepth 100000 in
+/-- the content, spelled out: frame `f` of block `b` holds frame `g`, which holds frame `h` -/
+example : denote .cif2 id C01render.nested =
+    [.mk (a!"b")
+      [.mk (a!"f")
+        [.mk (a!"g") [.mk (a!"h") [] [{ category := some [], names := [a!"_x"], packets := [[.chr false (a!"3")]] }]]
+          [{ category := none, names := [a!"_a"], packets := [[.chr true (a!"u v")], [.unk]] }]]
+        [{ category := some [], names := [a!"_x", a!"_y"], packets := [[.chr false (a!"1"), .lst [.na]]] }]]
+      [{ category := some [], names := [a!"_x"], packets := [[.chr false (a!"0")]] }]] := by rfl
 
 -- the predicate is not trivially true: a text field directly behind a key, a comment glued to a value, a `;`-led bare value at
 -- the beginning of a line, a list in CIF 1.1 are all refused
